@@ -172,19 +172,36 @@ def check_history(case, shard):
     code = case["code"]
     hists = case["hists"]
     cls = pyhf.interpolators.get(code)
-    inst = cls(hists, subscribe=False)
-    for al in case["history"]:
-        inst(tb.astensor(al))
-    final = case["alphas"]
-    got = to_np(inst(tb.astensor(final)))
+    # "switch" entries re-announce the tensor library to a subscribed instance (precision 64b -> 32b -> 64b), which makes it
+    # redo its precomputation with the call shape it remembers - the way an interpolator inside a Model lives
+    switching = "switch" in case["history"]
+    inst = cls(hists, subscribe=switching)
+    shapes = []
+    try:
+        for al in case["history"]:
+            if al == "switch":
+                pyhf.set_backend(case["backend"], precision="32b")
+                pyhf.set_backend(case["backend"], precision="64b")
+                tb = pyhf.tensorlib
+                shapes.append("switch")
+                continue
+            inst(tb.astensor(al))
+            shapes.append((len(al), len(al[0])))
+        final = case["alphas"]
+        got = to_np(inst(tb.astensor(final)))
+    except Exception as e:
+        shard.violate(f"C03/code{code}:history", f"call after history {shapes} raised {type(e).__name__}: {str(e)[:200]}", case, "history")
+        return
     fresh = to_np(cls(hists, subscribe=False)(tb.astensor(final)))
     if got.shape != fresh.shape or not np.array_equal(got, fresh, equal_nan=True):
-        bad = float(np.max(np.abs(got - fresh))) if got.shape == fresh.shape else "shape"
-        shard.violate(f"C03/code{code}:history", f"value after call-shape history {[(len(a), len(a[0])) for a in case['history']]} differs from a fresh instance (max diff {bad})", case, "history")
+        bad = float(np.max(np.abs(got - fresh))) if got.shape == fresh.shape else f"shape {got.shape} vs {fresh.shape}"
+        shard.violate(f"C03/code{code}:history", f"value after call-shape history {shapes} differs from a fresh instance (max diff {bad})", case, "history")
     else:
         shard.ok("history")
         shard.covered("history_lengths", len(case["history"]))
-        shard.nontrivial("history", case["backend"], code, hists, [(len(a), len(a[0])) for a in case["history"]])
+        if switching:
+            shard.covered("history_kinds", "with a tensor-library re-announcement between calls")
+        shard.nontrivial("history", case["backend"], code, hists, shapes)
 
 
 def check_smoothness(case, shard):
@@ -281,6 +298,8 @@ def run_shard(shard):
             for _ in range(rng.randint(2, 6)):
                 na = rng.choice([1, 1, 2, 3, 7])
                 hist.append([gen_alphas(rng, na) for _ in range(nset)])
+            if rng.random() < 0.35:
+                hist.insert(rng.randint(1, len(hist)), "switch")
             hc["history"] = hist
             check_history(hc, shard)
             # smoothness on pyhf's own output
